@@ -288,11 +288,21 @@ func c07Case(ctx *genCtx, ts *tape.Set, dir string) *genResult {
 		return out
 	}
 
-	nsteps := 1 + ht.Intn(4)
+	nsteps := 2 + ht.Intn(3)
 	dirty := true
 	interesting := false
+	startWithRun := ht.Intn(3) > 0 // most histories first generate for v1, then change things
 	for s := 0; s < nsteps && res.V == nil; s++ {
-		switch ht.Intn(6) {
+		kind := ht.Intn(7)
+		if s == 0 && startWithRun {
+			kind = 2
+		} else if s == 0 {
+			nsteps++
+		}
+		if kind == 6 {
+			kind = 0
+		}
+		switch kind {
 		case 0, 1: // edit
 			d := world.Edit(w, ht, prof)
 			log = append(log, "edit:"+d)
